@@ -268,9 +268,16 @@ func units(seed int64, n int, emit func(interface{})) {
 			emit(Unit{Kind: "tagged-register", Requested: addrsOf(req), Addrs: expectAddrs(linked), Result: instTagged()})
 			for round := 0; round < 2; round++ {
 				before := instTagged()
+				prev := append([]string{}, linked...)
+				sort.Strings(prev)
 				linked = subset(svcs[:4], 3)
+				now := append([]string{}, linked...)
+				sort.Strings(now)
 				gwConf(linked)
-				emit(Unit{Kind: "tagged-config", Existing: before, Addrs: expectAddrs(linked), Result: instTagged()})
+				// updateGatewayServices returns before the handler when the set of linked services is unchanged
+				if strings.Join(prev, ",") != strings.Join(now, ",") {
+					emit(Unit{Kind: "tagged-config", Existing: before, Addrs: expectAddrs(linked), Result: instTagged()})
+				}
 			}
 			r.close()
 		}
